@@ -9,7 +9,7 @@ import networkx as nx
 from ..cfg import ENTRY, EXIT, RAISE, reaching_defs
 from ..common import calls_named, dotted, kw, loc, norm, stmt_of
 from ..model import AnalysisError, ClassInfo, FunctionInfo, own_nodes
-from .util import anchor_func, assigned_name, buffer_fill, build_cfg, facts, is_zero_expr, projection_aliases, sem, switch_assumptions
+from .util import anchor_func, assigned_name, buffer_fill, build_cfg, facts, is_zero_expr, projection_aliases, sem, switch_assumptions, value_uses
 from . import opcontract
 
 COLLECT = "mygrad._utils.collect_all_tensors_and_clear_grads"
@@ -345,8 +345,8 @@ def _derives_from(cfg, name, at, origin, seen) -> bool:
                 if not _derives_from(cfg, name, bf[2], origin, seen):
                     return False
                 continue
-        if rhs is None or name not in {x.id for x in ast.walk(rhs) if isinstance(x, ast.Name)}:
-            return False
+        if rhs is None or not value_uses(rhs, name):
+            return False  # e.g. `g = np.empty_like(var.data, dtype=g.dtype)`: reads metadata only -- the contribution itself is lost
         if not _derives_from(cfg, name, d, origin, seen):
             return False
     return True
